@@ -29,10 +29,7 @@ fn seqs(opts: usize, maxn: usize) -> Vec<Vec<usize>> {
 }
 
 fn build(walls: &[usize], wins: &[usize], tbs: &[usize], nil_space: bool) -> Model {
-    let mut m = Model {
-        meta: meta(zone("D3")),
-        ..Default::default()
-    };
+    let mut m = model_with_meta(meta(zone("D3")));
     let wc = std_cons(&mut m);
     let winc = std_wincons(&mut m);
     m.spaces.push(space("S1", SpaceType::CONDITIONED, true, 3.0));
@@ -86,7 +83,7 @@ fn build(walls: &[usize], wins: &[usize], tbs: &[usize], nil_space: bool) -> Mod
             name: format!("tb{k}"),
             kind: ThermalBridgeKind::GENERIC,
             l: LENS[*o],
-            psi: 0.1,
+            psi: 0.1, ..Default::default()
         });
     }
     m
@@ -213,6 +210,46 @@ pub fn run(ctx: &Ctx) -> i32 {
             if m.as_json().unwrap() != b {
                 ctx.violation("check:modifies-model", "model JSON differs after check()", case());
             }
+            // history: a model that was already checked (and its clone) is edited through its public collections and
+            // checked again - the answer is the one for the model as it is now
+            let edits: [(&str, fn(&mut Model)); 4] = [
+                ("last space removed", |q| {
+                    q.spaces.pop();
+                }),
+                ("first wall construction removed", |q| {
+                    if !q.cons.wallcons.is_empty() {
+                        q.cons.wallcons.remove(0);
+                    }
+                }),
+                ("a space added and the first wall moved into it", |q| {
+                    let s = space("Snew", SpaceType::CONDITIONED, true, 3.0);
+                    let id = s.id;
+                    q.spaces.push(s);
+                    if let Some(w) = q.walls.first_mut() {
+                        w.space = id;
+                    }
+                }),
+                ("first wall removed", |q| {
+                    if !q.walls.is_empty() {
+                        q.walls.remove(0);
+                    }
+                }),
+            ];
+            for (what, f) in edits {
+                let mut q = m.clone();
+                let _ = check(&q);
+                f(&mut q);
+                let mut got2: BTreeMap<Uuid, usize> = BTreeMap::new();
+                for w in check(&q) {
+                    if let Some(id) = w.id {
+                        *got2.entry(id).or_default() += 1;
+                    }
+                }
+                let exp2 = expected(&q);
+                if got2 != exp2 {
+                    ctx.violation("check:after-edit", &format!("after a first check, then '{}', the checker reports {:?} but the model as it is now has {:?}", what, got2, exp2), json!({"case": case(), "history": ["check", what, "check"]}));
+                }
+            }
             // indicators' warnings are the checker's (sub-product)
             let ind = m.energy_indicators();
             let a: Vec<_> = ind.warnings.iter().map(|w| (w.level, w.id, w.msg.clone())).collect();
@@ -240,7 +277,7 @@ pub fn run(ctx: &Ctx) -> i32 {
     }
     ctx.finish(
         "model_checking",
-        &format!("full product: 0..2 walls x (space{{ok,absent,nil}} x cons{{ok,absent,nil}} x next_to{{None,ok,absent,nil}}, the boundary kind cycling through INTERIOR/EXTERIOR/ADIABATIC/GROUND so that every (next_to option, kind) pair occurs) x 0..{} windows x (wall{{ok,absent,nil}} x cons{{ok,absent}}) x 0..{} bridges x l{{-1,-0.0,0,2,-0.004,-1e-30}} x {{no space with nil id, one}}; oracle = number of broken links per element id (reference: set membership, l<0), compared with the number of warnings carrying that id; every 97th model also: JSON unchanged by check(), energy_indicators().warnings == check(); + 7 shipped models; non-trivial = at least one broken link expected", 2, ctx.tier.pick(1, 2)),
+        &format!("full product: 0..2 walls x (space{{ok,absent,nil}} x cons{{ok,absent,nil}} x next_to{{None,ok,absent,nil}}, the boundary kind cycling through INTERIOR/EXTERIOR/ADIABATIC/GROUND so that every (next_to option, kind) pair occurs) x 0..{} windows x (wall{{ok,absent,nil}} x cons{{ok,absent}}) x 0..{} bridges x l{{-1,-0.0,0,2,-0.004,-1e-30}} x {{no space with nil id, one}}; oracle = number of broken links per element id (reference: set membership, l<0), compared with the number of warnings carrying that id; every 97th model also: JSON unchanged by check(), the histories check -> {{remove last space, remove first construction, add a space and move a wall into it, remove first wall}} -> check on a clone of the checked model, energy_indicators().warnings == check(); + 7 shipped models; non-trivial = at least one broken link expected", 2, ctx.tier.pick(1, 2)),
         true,
         json!({"space_size": n}),
     )
